@@ -107,12 +107,13 @@ def multi_flat_kernel(
     kernel_result = np.zeros(result_len).astype(np.float64)
 
     ind = 0
-    for i, mset in enumerate(window[offset:]):
-        kernel_result[ind : ind + len(mset)] = np.repeat(ker[i], len(mset))
-        if mask_index is not None:
-            for w_i, token in enumerate(mset):
-                if token == mask_index:
-                    kernel_result[ind + w_i] = 0
+    for i, mset in enumerate(window):
+        if i >= offset:
+            kernel_result[ind : ind + len(mset)] = np.repeat(ker[i], len(mset))
+            if mask_index is not None:
+                for w_i, token in enumerate(mset):
+                    if token == mask_index:
+                        kernel_result[ind + w_i] = 0
         ind += len(mset)
     kernel_result[target_ind] = 0
 
@@ -141,12 +142,13 @@ def multi_geometric_kernel(
 
     kernel_result = np.zeros(result_len).astype(np.float64)
     ind = 0
-    for i, mset in enumerate(window[offset:]):
-        kernel_result[ind : ind + len(mset)] = np.repeat(ker[i], len(mset))
-        if mask_index is not None:
-            for w_i, token in enumerate(mset):
-                if token == mask_index:
-                    kernel_result[ind + w_i] = 0
+    for i, mset in enumerate(window):
+        if i >= offset:
+            kernel_result[ind : ind + len(mset)] = np.repeat(ker[i], len(mset))
+            if mask_index is not None:
+                for w_i, token in enumerate(mset):
+                    if token == mask_index:
+                        kernel_result[ind + w_i] = 0
         ind += len(mset)
     kernel_result[target_ind] = 0
 
